@@ -77,6 +77,10 @@ let result_str = function
 let log_str = function
   | LOp (b, pc, r) -> Printf.sprintf "O %s %s %s" (nat_str b) (nat_str pc) (result_str r)
   | LDrop k -> Printf.sprintf "D arc %s" (nat_str k)
+  | LInitTls (k, b) -> Printf.sprintf "I tls %s %s" (nat_str k) (nat_str b)
+  | LDropTls (k, b) -> Printf.sprintf "D tls %s %s" (nat_str k) (nat_str b)
+  | LInitLazy k -> Printf.sprintf "I lazy %s" (nat_str k)
+  | LDropLazy k -> Printf.sprintf "D lazy %s" (nat_str k)
 
 let cut70 s = if String.length s > 70 then String.sub s 0 70 else s
 
@@ -129,6 +133,7 @@ let panic_str = function
   | PanicCellReading -> internal "currently reading from cell"
   | PanicMutating -> internal "atomic cell is in `with_mut` call"
   | PanicRwInvalid -> internal "invalid internal loom state"
+  | PanicLazyShutdown -> internal "attempted to access lazy_static during shutdown"
   | PanicModel c -> Printf.sprintf "model-stuck %s" (nat_str c)
 
 (* ---------- parsing programs ---------- *)
@@ -190,6 +195,8 @@ let instr_of (s : string) : instr =
   | [ "ag"; k; i ] -> IArcGetMut (nat_s k, nat_s i)
   | [ "au"; k; i ] -> IArcTryUnwrap (nat_s k, nat_s i)
   | [ "td"; k ] -> ITrackDrop (nat_s k)
+  | [ "tw"; k ] -> ITlsWith (nat_s k)
+  | [ "lz"; k ] -> ILazyGet (nat_s k)
   | [ "pn" ] -> IPanic
   | [ "ex" ] -> IExplore
   | [ "sx" ] -> IStopExploring
@@ -315,7 +322,7 @@ let model_keys (p : prog) : string list * string =
     (fun r ->
       let flat =
         List.filter_map
-          (function LOp (b, pc, x) -> Some (int_of_nat b, int_of_nat pc, result_str x) | LDrop _ -> None)
+          (function LOp (b, pc, x) -> Some (int_of_nat b, int_of_nat pc, result_str x) | _ -> None)
           r.ir_log in
       let k =
         match r.ir_result with
